@@ -1,8 +1,12 @@
 #!/bin/bash
-# run every claimed quick (or thorough) check in sequence; prints one summary line each
+# run every claimed quick (or thorough) check in sequence from the directory this script lives in;
+# prints one summary line each.  VERIF_OUT (optional) redirects evidence/ and replays/.
 tier=${1:-quick}
-cd /verif
+here="$(cd "$(dirname "$0")" && pwd)"
+cd "$here"
 for p in $(/venv/bin/python -c "import json; print(' '.join(c['property_id'] for c in json.load(open('MANIFEST.json'))['checks']))"); do
-  /venv/bin/python check.py $p --tier $tier > /tmp/run_all_$p.log 2>&1; rc=$?
-  echo "$p exit=$rc $(tail -1 /tmp/run_all_$p.log | cut -c1-160)"
+  log=$(mktemp /tmp/run_all_${p}_XXXX.log)
+  /venv/bin/python check.py $p --tier $tier > $log 2>&1; rc=$?
+  echo "$p exit=$rc $(tail -1 $log | cut -c1-160)"
+  grep -h "^violation signature\|^VIOLATION\|HARNESS-ERROR\|INCONCLUSIVE" $log | cut -c1-300
 done
